@@ -47,6 +47,10 @@ E3_LD = {"test": "TestE3Leader", "env": {"quick": {"VERIF_N": 250}, "thorough": 
          "shards": {"quick": 2, "thorough": 16}}
 E3_LC = {"test": "TestE3Lifecycle", "env": {"quick": {"VERIF_N": 150}, "thorough": {"VERIF_N": 1200}},
          "shards": {"quick": 1, "thorough": 16}}
+E5_API = {"test": "TestE5API", "env": {"quick": {"VERIF_WORDS": 60}, "thorough": {"VERIF_WORDS": 300}},
+          "shards": {"quick": 2, "thorough": 16}}
+E6_RACE = {"test": "TestE6Race", "race": True, "env": {"quick": {"VERIF_SECONDS": 12}, "thorough": {"VERIF_SECONDS": 90}},
+           "shards": {"quick": 2, "thorough": 8}, "timeout": {"quick": "10m", "thorough": "30m"}}
 TIES = [E3_AE, E3_RV, E3_EL, E3_LD]   # node-level correspondence every cluster-level statement rests on
 TIE_NOTE = " The node functions these statements are about are the ones E3 compares with the real handlers and sections on every run (E3: AppendEntries and RequestVote handlers, election and vote replies, and E3-leader: submissions, membership requests, heartbeat rounds, replication replies and the commit/apply/read-only loops of a started node)."
 
@@ -141,6 +145,22 @@ PROPS = {
         "explanation": "PARTIAL (liveness is outside what the model's theorems carry; only the progress-enabling facts are proved). Machine-checked: the conflict hint a follower returns lets the leader's next index move strictly below the rejected previous index and never below 1 (so the back-off terminates); a sole voter wins its election without any reply, also with non-voters present (after fix S15/S25); a member learned from a configuration entry starts with next index 1 (after fix S27), so its first request is well-formed. The convergence statement itself (after faults stop: one leader, new operations commit, every replica reaches the same applied sequence, restarted/added nodes catch up by log or snapshot) is evaluated by " + CLUSTER_NOTE + ": after every walk all partitions heal, all crashed nodes restart, delivery is prompt, and within a bounded virtual time there must be exactly one leader, a fresh write must complete at it, and every running member must reach the same applied index and hash.",
         "assumptions": ["liveness is checked by bounded-time exploration, not by a theorem: a violation is a concrete non-converging schedule; absence of one is not a proof",
                         "under membership churn convergence is only demanded when the running nodes agree on the configuration and a majority of its voters is running"],
+    },
+    "C18": {
+        "level": "proof",
+        "lean_modules": ["RaftVerif.Properties.C18", "RaftVerif.Properties.C14"],
+        "engines": [E5_API, E3_LD, E3_LC, E3_EL, E6_RACE],
+        "explanation": "PARTIAL proof. Machine-checked: (regenerated from the source on every run by harness/cmd/extract) every constant of State and OperationType has a String case that returns a literal; the future model (capacity-one channel, non-blocking respond, Await with timeout) resolves by its timeout and keeps only the first answer; the client-facing sections (submit replicated/read-only, AddServer, RemoveServer, Stop) never reach a logger.Fatal path or a run-time panic on well-formed nodes; restore/start yield a well-formed follower (C14); the apply step that applies a membership entry answers its pending future with success, also when applying it makes the leader step down. NOT provable in this model: 'never blocks forever' (Go scheduler, mutexes, wait groups): searched by E5-api (words over the public API on a node of a live cluster: no panic, no call blocked > 5 s virtual, futures resolved by their timeout, committed membership change answered successfully) and E6 (real-time stress: calls must return). Two genuine defects found and repaired: S16 (Stop;Start left the log closed), S29 (Start racing Stop: Stop blocked forever).",
+        "assumptions": ["a process abort (logger.Fatal) or panic inside an engine is reported as a C18 violation with signature process-abort",
+                        "Bootstrap is called before the first Start or on a stopped node (the documented use); on a running node it is only required not to panic or race"],
+    },
+    "C20": {
+        "level": "proof",
+        "lean_modules": ["RaftVerif.Properties.C20"],
+        "engines": [E6_RACE],
+        "explanation": "PARTIAL proof. The lock skeleton of every method of *Raft is REGENERATED from the source on every run (harness/cmd/extract: flow-sensitive walk over Lock/Unlock/defer/Cond.Wait/calls/go statements, giving for every access to a field of the node whether the mutex is held). Machine-checked over the whole table: every access to protocol state holds the node mutex; what is used without it is never assigned after construction; the walk determined the lock state everywhere and reached every method; the fields of log entries that in-flight requests read without the mutex are never assigned after creation; and (Proofs/Lockset.lean) two accesses under the mutex by different threads are separated by release-then-acquire, i.e. ordered. Outside the model: objects reached through local aliases, the storages' internals, the transport, the state machine. Search for a concrete racing schedule: E6 (race detector compiled in; real-time stress of a 3-4 node cluster with snapshots, membership churn, lifecycle calls and API calls from many goroutines, messages pushed through the transport's converters). Two genuine defects found and repaired: S18 (Bootstrap without the mutex), S29 (tail of Stop without the mutex).",
+        "assumptions": ["sync.Mutex is mutual exclusion with release->acquire ordering (Go memory model)",
+                        "the extractor (about 500 lines of go/ast walking) is part of the trusted base; its anomalies list must be empty (theorem C20_walk_complete)"],
     },
     "C16": {
         "level": "proof",
